@@ -103,11 +103,11 @@ func allChecks() []*Check {
 		{
 			ID: "C20", Title: "The connection password never reaches the log",
 			Harnesses: []Harness{
-				{Pkg: "client", Func: "VerifC20Password", ValSet: true, Quick: map[string]int{"PL": 3}, Thorough: map[string]int{"PL": 5}, Asserts: []string{"password-not-in-log", "pass-line-masked", "something-was-logged"}},
-				{Pkg: "client", Func: "VerifC20Password", ValSet: true, Quick: map[string]int{"PL": 2, "R": 2}, Thorough: map[string]int{"PL": 3, "R": 3}, Asserts: []string{"password-not-in-log", "pass-line-masked"}, Note: "several sessions on one client (welcomed, disconnected, reconnected)"},
+				{Pkg: "client", Func: "VerifC20Password", ValSet: true, Quick: map[string]int{"PL": 3}, Thorough: map[string]int{"PL": 6}, Asserts: []string{"password-not-in-log", "pass-line-masked", "something-was-logged"}},
+				{Pkg: "client", Func: "VerifC20Password", ValSet: true, Quick: map[string]int{"PL": 2, "R": 2}, Thorough: map[string]int{"PL": 4, "R": 3}, Asserts: []string{"password-not-in-log", "pass-line-masked"}, Note: "several sessions on one client (welcomed, disconnected, reconnected)"},
 				{Pkg: "client", Func: "VerifC20Password", ValSet: true, Quick: map[string]int{"PL": 1, "LONG": 1}, Thorough: map[string]int{"PL": 2, "LONG": 1}, Asserts: []string{"password-not-in-log"}, Note: "password of 521..524 bytes"},
 			},
-			Bounds:      map[string]string{"quick": "passwords of 1..3 symbolic bytes over a 16-symbol alphabet (3-9 # $ ~ ^ _ = + @ ?) disjoint from the library's own log texts, plus a space anywhere but first (and 1 symbolic byte behind a 520-byte filler); one whole session per path: dial ok / refused, negotiation on/off, tracking on/off, flood control off (Flood=true), the k-th socket write failing (k = none,0..3), three received lines (a NOTICE, the 001 welcome, a malformed line), Close; the same with 2 sessions in a row on one client (passwords 1..2 bytes); every format string and every string / error argument of every logger call is inspected", "thorough": "passwords up to 5 symbolic bytes; 3 sessions in a row with passwords up to 3 bytes"},
+			Bounds:      map[string]string{"quick": "passwords of 1..3 symbolic bytes over a 16-symbol alphabet (3-9 # $ ~ ^ _ = + @ ?) disjoint from the library's own log texts, plus a space anywhere but first (and 1 symbolic byte behind a 520-byte filler); one whole session per path: dial ok / refused, negotiation on/off, tracking on/off, flood control off (Flood=true), the k-th socket write failing (k = none,0..3), three received lines (a NOTICE, the 001 welcome, a malformed line), Close; the same with 2 sessions in a row on one client (passwords 1..2 bytes); every format string and every string / error argument of every logger call is inspected", "thorough": "passwords up to 6 symbolic bytes; 3 sessions in a row with passwords up to 4 bytes"},
 			Outside:     []string{"passwords that are substrings of texts the library logs anyway (e.g. '*')", "loggers that look at non-string arguments", "error texts produced by the real network stack (the dialler is a stub)"},
 			Stubs:       []string{"proxy dialler stub, in-memory wire, bufio model, coroutine scheduler (goroutines run until they block)"},
 			QuickBudget: 5 * time.Minute, ThorBudget: 30 * time.Minute,
@@ -128,14 +128,14 @@ func allChecks() []*Check {
 			ID: "C18", Title: "Registration and keep-alive follow the protocol",
 			Harnesses: []Harness{
 				{Pkg: "client", Func: "VerifC18Register", Asserts: []string{"registration-line-count", "registration-line"}},
-				{Pkg: "client", Func: "VerifC18Dial", Quick: map[string]int{"HL": 2}, Thorough: map[string]int{"HL": 4}, Asserts: []string{"dialled-address", "register-once-before-connect-returns", "failed-connect-fires-nothing", "registration-sent"}},
-				{Pkg: "client", Func: "VerifC18Entry", Quick: map[string]int{"R": 2}, Thorough: map[string]int{"R": 3}, Asserts: []string{"dialled-address", "registration-line-count", "registration-line"}, Note: "all five Connect* entry points, reconnects"},
-				{Pkg: "client", Func: "VerifC18Ping", Quick: map[string]int{"TL": 3}, Thorough: map[string]int{"TL": 6}, Asserts: []string{"pong-same-token", "ping-token-parsed"}},
+				{Pkg: "client", Func: "VerifC18Dial", Quick: map[string]int{"HL": 2}, Thorough: map[string]int{"HL": 5}, Asserts: []string{"dialled-address", "register-once-before-connect-returns", "failed-connect-fires-nothing", "registration-sent"}},
+				{Pkg: "client", Func: "VerifC18Entry", Quick: map[string]int{"R": 2}, Thorough: map[string]int{"R": 4}, Asserts: []string{"dialled-address", "registration-line-count", "registration-line"}, Note: "all five Connect* entry points, reconnects"},
+				{Pkg: "client", Func: "VerifC18Ping", Quick: map[string]int{"TL": 3}, Thorough: map[string]int{"TL": 8}, Asserts: []string{"pong-same-token", "ping-token-parsed"}},
 				{Pkg: "client", Func: "VerifC18LongPing", Asserts: []string{"pong-same-token", "one-line-received"}},
 				{Pkg: "client", Func: "VerifC18Keepalive", Asserts: []string{"monitor:ping-goroutine-started", "monitor:no-ping-goroutine", "monitor:one-ping-per-tick"}},
 			},
 			Bounds: map[string]string{"quick": "registration: CAP negotiation on/off, password 0..2 bytes, nick/ident/name 1..2 bytes (all bytes but CR/LF), tracking on/off; dial: host 1..2 ASCII bytes, without port / with :port (0..2 digits) / bracketed IPv6 with port, SSL on/off, dial ok/refused, through a harness proxy dialer; PING tokens 0..3 bytes as trailing or middle parameter, with/without source, and a 4200..4202-byte token through the real recv loop; PingFreq any value in [-5, 2^40]; entry points: 2 connects in a row on one client through any of Connect / ConnectContext / ConnectTo(host) / ConnectTo(host, pass) / ConnectToContext, password 0..1 bytes, negotiation on/off",
-				"thorough": "host up to 4 bytes, tokens up to 6 bytes, 3 connects in a row"},
+				"thorough": "host up to 5 bytes, tokens up to 8 bytes, 4 connects in a row"},
 			Outside:     []string{"the direct (non-proxy) dial path and real TLS (the dialler and the handshake are stubs)", "bare or port-less bracketed IPv6 literals", "the tick period in real time; the PING payload text (fmt.Sprintf is a stub)", "tokens longer than the bound (lines beyond bufio's buffer are covered by C01's delivery harness)"},
 			Stubs:       []string{"x/net/proxy.FromURL dispatches to the harness dialer registered for scheme vtest", "crypto/tls.Client + Handshake: fails", "time.NewTicker: N queued ticks", "context model", "fmt.Sprintf arbitrary text"},
 			QuickBudget: 5 * time.Minute, ThorBudget: 30 * time.Minute,
@@ -143,11 +143,11 @@ func allChecks() []*Check {
 		{
 			ID: "C17", Title: "The client always knows its own current nick",
 			Harnesses: []Harness{
-				{Pkg: "client", Func: "VerifC17Step", Quick: map[string]int{"NL": 2}, Thorough: map[string]int{"NL": 3},
+				{Pkg: "client", Func: "VerifC17Step", Quick: map[string]int{"NL": 2}, Thorough: map[string]int{"NL": 4},
 					Asserts: []string{"asks-for-generated-nick", "config-me-non-nil", "me-non-nil", "me-is-servers-nick", "no-unprompted-nick-change", "unaffected-by-old-nick-holder"}},
 				{Pkg: "client", Func: "VerifC17NewNick", Asserts: []string{"same-length", "same-prefix", "last-byte-differs"}},
 			},
-			Bounds:      map[string]string{"quick": "one server event {433 before the welcome, 001 same/different nick with/without nick!user@host, own NICK (both parameter forms), 433 after the welcome, NICK of another user} from any state satisfying 'Me().Nick = server's nick'; nicks 1..2 symbolic bytes; tracking on/off; default and custom (uninterpreted) generator; DefaultNewNick for all byte strings of length 1..3", "thorough": "nicks 1..3 bytes"},
+			Bounds:      map[string]string{"quick": "one server event {433 before the welcome, 001 same/different nick with/without nick!user@host, own NICK (both parameter forms), 433 after the welcome, NICK of another user} from any state satisfying 'Me().Nick = server's nick'; nicks 1..2 symbolic bytes; tracking on/off; default and custom (uninterpreted) generator; DefaultNewNick for all byte strings of length 1..3", "thorough": "nicks 1..4 bytes"},
 			Outside:     []string{"longer nicks, more than one other tracked user", "non-conformant servers (433 before the welcome for a nick other than the pending one; renaming onto a nick in use)"},
 			Stubs:       []string{"goroutines run to completion", "sync.* ghost models; sync.Pool: Get returns the most recently Put object (recycling is the adversarial legal behaviour)"},
 			Assumptions: []string{"server conformance as stated in the property"},
@@ -184,11 +184,11 @@ func allChecks() []*Check {
 			Harnesses: []Harness{
 				{Pkg: "client", Func: "VerifC04Step", Quick: map[string]int{"N": 2}, Thorough: map[string]int{"N": 3},
 					Asserts: []string{"add-model", "remove-model", "snapshot-model", "post-invariant", "one-critical-section", "monitor:all-accesses-under-lock", "empty-list-dropped"}},
-				{Pkg: "client", Func: "VerifC04History", Quick: map[string]int{"K": 5}, Thorough: map[string]int{"K": 6}, Asserts: []string{"history:each-live-handler-once-removed-never"}},
+				{Pkg: "client", Func: "VerifC04History", Quick: map[string]int{"K": 5}, Thorough: map[string]int{"K": 7}, Asserts: []string{"history:each-live-handler-once-removed-never"}},
 				{Pkg: "client", Func: "VerifC04Dispatch", Quick: map[string]int{"N": 2}, Thorough: map[string]int{"N": 3},
 					Asserts: []string{"each-once", "ran-exactly-the-registered-count", "late-registration-runs-next-time", "post-invariant"}},
 			},
-			Bounds:      map[string]string{"quick": "pre-state: any well-formed handler set over 2 distinct symbolic names (1-2 ASCII bytes) with 0..2 handlers each, built directly in the heap; one add (either name in any letter case, or a third name) / remove (any node) / snapshot; dispatch of an event in any letter case with self-removal, sibling removal and registration from inside a handler", "thorough": "0..3 handlers per name"},
+			Bounds:      map[string]string{"quick": "pre-state: any well-formed handler set over 2 distinct symbolic names (1-2 ASCII bytes) with 0..2 handlers each, built directly in the heap; one add (either name in any letter case, or a third name) / remove (any node) / snapshot; dispatch of an event in any letter case with self-removal, sibling removal and registration from inside a handler; plus concrete-shape histories of 5 operations (add under either of two names in either case / remove any earlier handler / dispatch) from the empty set against a list model", "thorough": "0..3 handlers per name; histories of 7 operations"},
 			Outside:     []string{"more names/handlers than the bound (history length is unbounded by induction)", "true interleavings of racing Handle/Remove with dispatch: decided only through 'each operation is one critical section with every access inside it' (solver-checked on all paths) plus the textbook atomicity argument (not solver-checked)", "background-dispatch start time (as in the property)"},
 			Stubs:       []string{"sync.RWMutex / WaitGroup ghost models", "goroutines run to completion at wg.Wait"},
 			QuickBudget: 5 * time.Minute, ThorBudget: 30 * time.Minute,
@@ -198,10 +198,10 @@ func allChecks() []*Check {
 			Harnesses: []Harness{
 				{Pkg: "client", Func: "VerifC15Copies", Quick: map[string]int{"A": 2}, Thorough: map[string]int{"A": 3, "A15": 1},
 					Asserts: []string{"equal-on-entry", "private-from-original", "private-from-each-other", "original-unchanged", "each-handler-invoked-once"}},
-				{Pkg: "client", Func: "VerifC15Copies", Quick: map[string]int{"A": 1, "D": 2}, Thorough: map[string]int{"A": 2, "D": 3},
+				{Pkg: "client", Func: "VerifC15Copies", Quick: map[string]int{"A": 1, "D": 2}, Thorough: map[string]int{"A": 1, "D": 3},
 					Asserts: []string{"equal-on-entry", "private-from-each-other"}, Note: "several events in a row; handlers keep and edit their lines after returning"},
 			},
-			Bounds:      map[string]string{"quick": "lines with 0..2 arguments (0..2 symbolic bytes each), Tags nil / empty / 1 / 2 entries; 0..1 internal, 0..2 foreground, 0..2 background handlers that keep their line and overwrite every mutable part of it on entry and again after returning; one event, and 2 events in a row (0..1 arguments) with storage compared across events", "thorough": "0..3 and 15 arguments; 3 events in a row"},
+			Bounds:      map[string]string{"quick": "lines with 0..2 arguments (0..2 symbolic bytes each), Tags nil / empty / 1 / 2 entries; 0..1 internal, 0..2 foreground, 0..2 background handlers that keep their line and overwrite every mutable part of it on entry and again after returning; one event, and 2 events in a row (0..1 arguments) with storage compared across events", "thorough": "0..2 and 15 arguments (one byte each); 3 events in a row (0..1 arguments)"},
 			Outside:     []string{"more handlers / arguments than the bound", "true interleavings of the handler bodies: the deterministic run-to-completion schedule suffices because pairwise heap-disjointness of everything the handlers can reach through their argument is exactly what is asserted"},
 			Stubs:       []string{"goroutines run to completion at the spawner's wg.Wait (one legal schedule)", "sync.* ghost models; sync.Pool: Get returns the most recently Put object (recycling is the adversarial legal behaviour)"},
 			QuickBudget: 5 * time.Minute, ThorBudget: 30 * time.Minute,
